@@ -398,7 +398,7 @@ class LemmaSet:
 
 class Contract:
     def __init__(self, module, qualname, make_args, requires=None, ensures=None, raises=None, loops=None,
-                 summary=None, definedness="D", inline_callees=(), notes="", hints=None, variant="", cuts=None, script=None):
+                 summary=None, definedness="D", inline_callees=(), notes="", hints=None, variant="", cuts=None, script=None, covers=None):
         self.module = module
         self.qualname = qualname
         self.make_args = make_args        # (eng) -> (args dict, ghost dict)
@@ -414,10 +414,26 @@ class Contract:
         self.cuts = cuts or []            # [(statement prefix, fn(LoopState) -> {"ob": [...], "env": {...}, "assume": [...]})]
         self.variant = variant
         self.script = script              # (eng, ArgView) -> result: a *sequence* of calls of real functions instead of one call
+        self.covers = covers              # parameter names the callee's own contract was verified for; a call passing any other
+                                          # parameter explicitly is outside that contract (modular use refused: undecided)
 
     @property
     def key(self):
         return (self.module, self.qualname)
+
+
+_SIGS = None
+
+
+def _recorded_signatures():
+    global _SIGS
+    if _SIGS is None:
+        import json
+        try:
+            _SIGS = json.load(open(os.path.join(os.path.dirname(os.path.dirname(os.path.abspath(__file__))), "contracts", "signatures.json")))
+        except Exception:
+            _SIGS = {}
+    return _SIGS
 
 
 # ============================================================================= the engine
@@ -1081,6 +1097,18 @@ class Engine:
             c = self.contracts.get(key)
             if c is not None and c.summary is not None and key != self.top_key and \
                     f.qualname not in (self.cur_contract.inline_callees if self.cur_contract else ()):
+                covers = c.covers
+                if covers is None:
+                    # default: the parameters the function had on the tree the contracts were written against (contracts/signatures.json)
+                    covers = _recorded_signatures().get("%s:%s" % (f.module.relpath, f.qualname.replace(".setter", "")))
+                if covers is not None:
+                    names = [x.arg for x in f.node.args.args]
+                    if f.cls is not None and names and names[0] == "self":
+                        pass
+                    passed = names[:len(pos)] + list(kw)
+                    extra = [n for n in passed if n not in covers]
+                    if extra:
+                        raise Unsupported("call of %s passes %s, which its contract was not verified for (modular use refused)" % (f.qualname, extra))
                 return c.summary(self, pos, kw)
             return self.call_function(f, pos, kw)
         if isinstance(f, RepoClass):
